@@ -20,7 +20,7 @@ from ..progen import mkfunc, call
 
 def base_program():
     return {
-        "funcs": [mkfunc("f", calls=[call("g"), call("h"), call("k"), call("abs")], reads=["G", "GL", "cfg.X", "cfg.Z", "Alt.Z", "cfg.inner.W"], rich=False),
+        "funcs": [mkfunc("f", calls=[call("g"), call("h"), call("lk"), call("abs")], reads=["G", "GL", "cfg.X", "cfg.Z", "Alt.Z", "cfg.inner.W"], rich=False),
                   mkfunc("g", reads=["G", "GV"], rich=False),
                   mkfunc("h", kind="plain", reads=["GL", "HV"], rich=False),
                   # reference cycles: r refers to itself, p and q to each other (only versions are asked, nothing is called)
@@ -35,14 +35,14 @@ def base_program():
         # Alt.Z is missing like cfg.Z (same attribute name, another owner); cfg.inner.W is a missing attribute two levels down
         "classes": {"In1": {"V": 1}, "C1": {"X": 10, "inner": {"__ref__": "In1"}}, "C2": {"X": 20, "inner": {"__ref__": "In1"}}, "Alt": {"X": 30}},
         "bindings": {"cfg": "C1"},
-        "order": ["f", "g", "h", "k", "r", "p", "q", "abs", "g2", "g3", "@keep", "@bind_t", "w", "n"],
-        "late": ["k"],
+        "order": ["f", "g", "h", "lk", "r", "p", "q", "abs", "g2", "g3", "@keep", "@bind_t", "w", "n"],
+        "late": ["lk"],
     }
 
 
 QUERIED = ("f", "g", "r", "p", "q", "w", "n")
 EVENTS = ["redef_f", "redef_g", "redef_h", "redef_r", "redef_q", "redef_h_default", "redef_h_kwdefault", "rebind_G", "rebind_HV", "rebind_GV", "mutate_GL", "def_k_helper", "def_k_var", "def_abs_helper", "rebind_t", "toggle_g_kind",
-          "rebind_cfg", "def_attr_Z", "def_attr_AltZ", "def_attr_W", "clone_f", "clone_n", "wrap_f", "query_f", "query_g"]
+          "rebind_cfg", "def_attr_Z", "def_attr_AltZ", "def_attr_W", "def_k_none", "clone_f", "clone_f_quiet", "clone_n", "wrap_f", "query_f", "query_g"]
 
 
 def apply_to_ast(P, ev):
@@ -63,11 +63,14 @@ def apply_to_ast(P, ev):
     elif ev == "mutate_GL":
         Q["vars"]["GL"] = [1, 2, 9] if Q["vars"]["GL"] == [1, 2] else [1, 2]
     elif ev == "def_k_helper":
-        Q["funcs"] = [f for f in Q["funcs"] if f["name"] != "k"] + [mkfunc("k", kind="plain", rich=False)]
-        Q["vars"].pop("k", None)
+        Q["funcs"] = [f for f in Q["funcs"] if f["name"] != "lk"] + [mkfunc("lk", kind="plain", rich=False)]
+        Q["vars"].pop("lk", None)
     elif ev == "def_k_var":
-        Q["funcs"] = [f for f in Q["funcs"] if f["name"] != "k"]
-        Q["vars"]["k"] = 3
+        Q["funcs"] = [f for f in Q["funcs"] if f["name"] != "lk"]
+        Q["vars"]["lk"] = 3
+    elif ev == "def_k_none":  # the late symbol gets defined - as None
+        Q["funcs"] = [f for f in Q["funcs"] if f["name"] != "lk"]
+        Q["vars"]["lk"] = None
     elif ev == "def_abs_helper":  # a module-level helper that takes the name of a builtin the function was using
         Q["funcs"] = Q["funcs"] + [mkfunc("abs", kind="plain", rich=False)]
     elif ev == "toggle_g_kind":
@@ -90,9 +93,9 @@ def apply_to_ast(P, ev):
 def enabled(P, ev):
     fm = {f["name"]: f for f in P["funcs"]}
     if ev == "def_k_helper":
-        return "k" not in fm
-    if ev == "def_k_var":
-        return "k" not in P["vars"]
+        return "lk" not in fm
+    if ev in ("def_k_var", "def_k_none"):
+        return "lk" not in P["vars"]
     if ev == "def_abs_helper":
         return "abs" not in fm
     if ev == "query_g":
@@ -127,6 +130,10 @@ def apply_live(P, Q, ev, mods, root, objs):
     if ev == "rebind_t":
         setattr(a, "g2", getattr(a, Q["stmts"]["@bind_t"].split("= ")[1]))
         return None
+    if ev == "clone_f_quiet":
+        # a modifier clone is made and kept; nobody asks for its version now
+        objs.append(("clone", a.f.force_local(), objs_epoch(objs)))
+        return None
     if ev in ("clone_f", "clone_n", "wrap_f", "query_f", "query_g"):
         import twosigma.memento as m
 
@@ -151,7 +158,9 @@ def apply_live(P, Q, ev, mods, root, objs):
     if ev == "redef_f":
         objs.append(("epoch", None, None))  # clones / wrappers made before now hold the old code
     if ev == "def_k_var":
-        setattr(a, "k", 3)
+        setattr(a, "lk", 3)
+    if ev == "def_k_none":
+        setattr(a, "lk", None)
     return None
 
 
@@ -259,13 +268,18 @@ def program_after(hist):
     return P
 
 
+WARM_EVENTS = ["rebind_G", "mutate_GL", "redef_h", "clone_f_quiet", "clone_f", "wrap_f", "rebind_cfg"]
+
+
 def expand(cfg, hist):
-    depth, seed = cfg
+    depth, seed = cfg[:2]
+    prefix = tuple(cfg[2]) if len(cfg) > 2 else ()  # events that happened before the explored part (same for all histories)
     out = []
     if len(hist) >= depth:
         return out
+    hist = prefix + tuple(hist)
     P = program_after(hist)
-    evs = [e for e in EVENTS if enabled(P, e)]
+    evs = [e for e in (EVENTS if not prefix else WARM_EVENTS) if enabled(P, e)]
     if seed:
         import random
 
@@ -280,7 +294,7 @@ def expand(cfg, hist):
                 raise HarnessError("live child failed for %s: %s" % (h, e))
             rm(os.path.join(top, "live"))
             r2 = None
-            if any(e in ("clone_f", "clone_n", "wrap_f") for e in h):
+            if any(e in ("clone_f", "clone_f_quiet", "clone_n", "wrap_f") for e in h):
                 try:
                     r2 = farm.fork_call(_child, h, os.path.join(top, "live"), True)
                 except farm.ChildFailed as e:
@@ -304,7 +318,7 @@ def expand(cfg, hist):
             if bad:
                 prev = hist[-1] if hist else "init"
                 sig = "%s|after:%s|%s" % (ev, prev, bad[0])
-                out.append((ev, None, (sig, bad[1] + "\nevent history: %s" % (list(h),), {"history": list(h)}), None))
+                out.append((ev, None, (sig, bad[1] + "\nevent history: %s" % (list(h),), {"history": list(h), "prefix": len(prefix)}), None))
                 continue
             canon = (progen.key(r["P"]), r["canon"])
             out.append((ev, vbfs.digest(canon), None, vbfs.digest((progen.key(r["P"]), sorted(r["final"].items())))[:12]))
@@ -421,6 +435,12 @@ def run(ctx):
     r = vbfs.explore(expand, cfg, vbfs.digest("init"), max_depth=depth, label="c13")
     r["caps"] = [c for c in r["caps"] if "depth cap" not in c]
     ctx.merge([r])
+    # the same search started from a module whose versions have all been asked for once (every function has rules to go stale)
+    wd = 4 if thorough else 3
+    rw = vbfs.explore(expand, (wd, ctx.seed, ("query_f", "query_g")), vbfs.digest("init-warm"), max_depth=wd, label="c13-warm")
+    rw["caps"] = [c for c in rw["caps"] if "depth cap" not in c]
+    ctx.merge([rw])
+    ctx.rule += " A second search to depth %d over %s starts after f and g have been asked for their versions." % (wd, WARM_EVENTS)
     ar = addr_reuse_case(4000 if thorough else 1000)
     ctx.merge([ar])
     ctx.extra["address_reuse"] = {"helpers": AR_HELPERS, "redefinitions_until_a_freed_address_was_reused": ar["reused_after"]}
@@ -440,7 +460,8 @@ def replay(ctx, art):
         print("REPLAY property=C13 result=%s" % bool(r["violations"]))
         return 1 if r["violations"] else 0
     h = tuple(art["artefact"]["history"])
-    out = expand((len(h), 0), h[:-1])
+    npre = art["artefact"].get("prefix", 0)
+    out = expand((len(h), 0, h[:npre]), h[npre:-1]) if npre else expand((len(h), 0), h[:-1])
     bad = [x[2] for x in out if x[0] == h[-1] and x[2]]
     for b in bad:
         print(b[0], "\n", b[1])
